@@ -78,6 +78,7 @@ func TestCheck(t *testing.T) {
 			}
 		}
 		runSyncDuringCreate(r, round)
+		runHumanOverlap(r, round)
 		runConcurrent(r, t, round)
 	}
 
@@ -116,6 +117,10 @@ func TestCheck(t *testing.T) {
 		"cases:restored":                           15000,
 		"restored_cases_dohonly_device":            1000,
 		"db_calls:restored:device-id":              1000,
+		"badhash_wrong_or_empty_password_cases":    3000,
+		"human_overlap_pairs":                      20,
+		"human_overlap_auto_devices":               40,
+		"concurrent_noncanonical_human_ids":        300,
 		"syncrace_creates_in_flight_during_sync":   2,
 		"syncrace_cases":                           1000,
 		"syncrace_cases:deleted":                   400,
